@@ -83,4 +83,4 @@ def run(res, tier, seed, replay):
         rec = mm[1] if len(mm) > 1 else ""
         res.violation("correspondence", "model and implementation disagree: " + m[:600],
                       dict(kind="correspondence", harness="c07", seed=s, tier=tier, part=p, record=rec[:20000], detail=m[:2000]),
-                      found_input=bool(rec))
+                      found_input=False)   # a disagreement alone is not a failing input of the property; PROPFAILs carry those
